@@ -61,6 +61,10 @@ MUTANTS = [
                                                  "fmt.Sprintf(serviceEndpointFmt, pr.GetName(), svc.Namespace, grpcPort)")], ["Endpoint"]),
     ("i-optional-replicas-always-set", [(RO, "\t\tif d.Spec.Replicas == nil {\n\t\t\td.Spec.Replicas = &replicas\n\t\t}\n", "\t\td.Spec.Replicas = &replicas\n")],
      ["Defaults.Replicas"]),
+    ("j-applysa-forgets-foreign-pull-secrets", [(RP, "\t\t\tif !existingSecrets[secret.Name] {\n", "\t\t\tif !existingSecrets[secret.Name] && false {\n")],
+     ["ServiceAccount.KeepsPullSecrets"]),
+    ("k-permission-requests-not-recorded", [(RP, "\tprovRev.Status.PermissionRequests = providerMeta.Spec.Controller.PermissionRequests\n", "\t_ = provRev\n")],
+     ["PermissionRequests"]),
 ]
 REPAIR = ("candidate-repair-deactivate-deletes-only-its-own",
           [(RP, DEL_P, own_delete("errDeleteProviderDeployment")),
